@@ -77,6 +77,7 @@ def check(rep, tier, seed):
 
     # the samples-file parser itself (Map::from_reader) vs the model, on well-formed and odd files
     files = [b"a\tA\nb\tB\nc\tA\n", b"a\nb\nc\n", b"a\tA\nb\n", b"a\tA\nb\tB", b"a\tA\r\nb\tB\r\n", b"a\tA\n\nb\tB\n", b"", b"\n", b"\n\n",
+             b"#a\tA\nb\tB\n", b"#sample\tpopulation\na\tA\n", b"a\tA\n#\n", b"a\tX\nb\tX \nc\t X\n",
              b"a\tA\tx\nb\tB\n", b"a \tA\nb\t B\n", b"a=A\nb=B\n", b"a,b\tA\n", b"\tA\nb\tA\n", b"a\t\nb\t\n", b"a\tA\na\tB\n", b"a\tA\nb\tB\na\tB\n",
              b"s 0\tpop 1\ns1\tpop 2\ns2\tpop 1\n", b"a\tA\rb\tB\n", b"a\tA\n\r\nb\tA\n", b"x\tA B\ty\n"]
     for _ in range(40 if tier == "quick" else 400):
@@ -179,9 +180,9 @@ def check(rep, tier, seed):
     # ... and a label may itself contain '=' (the inline entry is split at its FIRST '=': name, then label)
     odd = [("pop 1", "pop 2"), ("A B C", "A B"), ("pop=north", "pop=south"), ("a=b=c", "a=b"), (" x", "x "), ("p:q", "p;q"), ("naïve", "naive"), ("=", "==")]
     for k, (l1, l2) in enumerate(odd if tier == "thorough" else odd[:5]):
-        cols = ["s 0", "s1", "s2", "s3"]
+        cols = ["s 0", "s1", "s2", "s3"] if k % 2 == 0 else ["s 0", "#s1", "s2", "s3"]          # a sample may be called '#s1'; no line of the file is a comment
         recs = [[rng.choice(["0/0", "0/1", "1/1"]) for _ in cols] for _ in range(6)]
-        sm = [("s 0", l1), ("s1", l2), ("s2", l1)]
+        sm = [("s 0", l1), (cols[1], l2), ("s2", l1)]
         vcf = render_vcf(cols, recs)
         path = os.path.join(WORK, "c09_odd_%d.txt" % k)
         open(path, "wb").write(samples_file_bytes(sm))
